@@ -13,7 +13,6 @@ protocol step is recovered transparently (absorbable scripts, DESIGN.md appendix
 """
 import itertools
 import logging
-import sys
 
 from common import Check
 
@@ -78,10 +77,11 @@ def pdu_kind(h, brty):
 
 
 def sparse(script):
-    """faulty rounds pairwise at least 4 rounds apart: every fault is the only one in its protocol step
-    (a recovery takes at most the faulty round, one attention round and one retransmission round)"""
+    """every faulty round is followed by (at least) two fault free rounds: each lost or corrupted frame is the only
+    fault of its protocol step - faulty round, attention round, retransmission round (Proofs/DepSrr.v Sparse;
+    rounds beyond the script are fault free)"""
     bad = [i for i, f in enumerate(script) if tuple(f) != ('D', 'D')]
-    return all(b - a >= 4 for a, b in zip(bad, bad[1:]))
+    return all(b - a >= 3 for a, b in zip(bad, bad[1:]))
 
 
 class Runner(object):
@@ -146,21 +146,26 @@ class Runner(object):
         nfaults = sum(1 for f in script if f != ('D', 'D'))
         # (time-out extension is excluded from this demand: the NFC-DEP rules make an RTOX response to
         # NACK/ATN a protocol error, so a lost or corrupted RTOX PDU is not recoverable by design)
-        if valid_cfg and len(R) >= len(P) and sparse(script) and timeout >= 3 and not any(rtox or []):
+        if valid_cfg and len(R) >= len(P) and sparse(script) and timeout >= 2 and not any(rtox or []):
             exact = o['ini'] == exp_i[:len(P)] and o['tgt'][:len(P)] == exp_t
             if not exact:
-                # classify the script: was an ACK response corrupted, was any frame lost, is a DID in use
-                ackc = lost = False
-                for k, f in enumerate(script):
-                    fr = [(d, h, ft, btx) for d, h, ft, btx, _, r in o['frames'] if r == o['base'] + k]
-                    if f[0] == 'L' or f[0] == 'C' or (f == ('D', 'L')):
-                        lost = lost or bool(fr)
-                    if f == ('D', 'C') and len(fr) > 1 and pdu_kind(fr[1][1], fr[1][3]) == 'ACK':
-                        ackc = True
-                ck.violation('not-recovered:did=%s:corrupted-ack=%s:timeout=%s' % (cfg['did'] is not None, ackc, lost),
+                # the one input class the tree as it is does not recover (request_retransmission rejects a
+                # retransmitted ACK): the conversation ends with  INF(more) delivered / ACK corrupted /
+                # NAK delivered / ACK delivered / ProtocolError
+                dep = [(d, pdu_kind(h, btx), ft, h, btx) for d, h, ft, btx, _, r in o['frames'] if r >= o['base']]
+                while dep and dep[-1][1] in ('RLS', 'DSL'):
+                    dep.pop()
+                tail = [(d, k, ft) for d, k, ft, _, _ in dep[-4:]]
+                if (tail == [('I', 'INF', 'D'), ('T', 'ACK', 'C'), ('I', 'NAK', 'D'), ('T', 'ACK', 'D')] and
+                        o['ini'] and o['ini'][-1] == 'err ProtocolError'):
+                    ck.violation('not-recovered:corrupted-ack',
+                                 'a corrupted ACK response during initiator chaining is not recovered: the ACK retransmitted '
+                                 'after NAK is rejected with ProtocolError', dict(case, ini=[x[:20] for x in o['ini']], tgt=[x[:20] for x in o['tgt']]))
+                    return
+                lost = any(f[0] != 'D' or f == ('D', 'L') for f in script)
+                ck.violation('not-recovered:other:did=%s:timeout=%s' % (cfg['did'] is not None, lost),
                              'a single lost/corrupted frame per protocol step was not recovered transparently '
-                             '(DID in use: %s, an ACK response was corrupted: %s, a time-out occurred: %s)' % (
-                                 cfg['did'] is not None, ackc, lost),
+                             '(DID in use: %s, a time-out occurred: %s)' % (cfg['did'] is not None, lost),
                              dict(case, ini=[x[:20] for x in o['ini']], tgt=[x[:20] for x in o['tgt']]))
 
     def flush(self):
@@ -249,7 +254,8 @@ def main():
                       'driver keeps listening after lost or corrupted frames',
                       'valid configurations: DID absent or 1..14 (DID 0 with the DID flag set is modelled and '
                       'compared, but transparent recovery is not demanded of it); payloads non-empty']
-    ck.coq(targets=['Model/Dep.vo', 'Proofs/DepCodec.vo', 'Proofs/DepBound.vo', 'Proofs/DepExact.vo', 'Proofs/DepSafety.vo'],
+    ck.coq(targets=['Model/Dep.vo', 'Proofs/DepCodec.vo', 'Proofs/DepTarget.vo', 'Proofs/DepBound.vo', 'Proofs/DepSrr.vo',
+                    'Proofs/DepExact.vo', 'Proofs/DepSafety.vo'],
            props='C04')
     mr = ck.model()
     if mr is None:
@@ -261,16 +267,37 @@ def main():
     def cfg_(brty='212F', did=None, nad=None, lri=0, lrt=0, brs=0):
         return dict(brty=brty, did=did, nad=nad, lri=lri, lrt=lrt, brs=brs)
 
+    # ---------------- replay of a recorded case
+    if ck.replay:
+        import json
+        rec = json.load(open(ck.replay))
+        cases = [rec['case']] if 'case' in rec else [m['case']['case'] for m in rec.get('first_disagreements', []) if 'case' in m.get('case', {})]
+        for c in cases:
+            if 'payloads' not in c:
+                continue
+            unhex = lambda h: b'' if h == '-' else bytes.fromhex(h)  # noqa
+            sc = c['script']
+            run.conv(c['cfg'], [unhex(x) for x in c['payloads']], [unhex(x) for x in c['responses']],
+                     [(sc[i], sc[i + 1]) for i in range(0, len(sc), 2)], rtox=c.get('rtox'), timeout=c.get('timeout', 8),
+                     release=c.get('release', True), kind='replay')
+        run.flush()
+        ck.finish(level='proof', rule='replay of ' + ck.replay, explanation='replay')
+
     # ---------------- corpus of minimised past failures (each was a defect of the unrepaired tree)
     c = cfg_(did=5)
     run.conv(c, [b'\x01' * 3], [b'\x11' * 61], [], kind='corpus')                        # target frame LR+1 with DID
     run.conv(cfg_(did=5, lri=3), [b'\x01'], [b'\x11' * 251], [], kind='corpus')          # length byte 256: struct.error
     run.conv(c, [b'\x01' * 3, b'\x02'], [b'\x11', b'\x12'], [('L', 'D')], kind='corpus')  # ATN without DID is ignored
     run.conv(c, [b'\x01' * 3, b'\x02'], [b'\x11', b'\x12'], [('D', 'L')], kind='corpus')
-    run.conv(cfg_(), [b'\x01' * 62, b'\x02'], [b'\x11', b'\x12'], [('D', 'C')], kind='corpus')   # corrupted ACK
+    run.conv(cfg_(), [b'\x01' * 62, b'\x02'], [b'\x11', b'\x12'], [('D', 'C')], kind='corpus')   # corrupted ACK (open finding)
     run.conv(cfg_(), [b'\x01' * 62, b'\x02' * 3, b'\x03' * 2, b'\x04'], [b'\x11' * 63, b'\x12' * 2, b'\x13', b'\x14'],
              [('D', 'D')] * 4 + [('D', 'L')], rtox=[0, 1, 0, 2], kind='corpus')         # RTOX byte delivered as payload
     run.conv(cfg_(), [b'\x01\x02'], [b'\x03'], [('L', 'D'), ('D', 'L'), ('D', 'L')], kind='corpus')  # release in first exchange
+    # invalid arguments (compared with the model, not judged): empty payload / empty response
+    run.conv(cfg_(), [b''], [b'\x01'], [], kind='argument')
+    run.conv(cfg_(), [b'\x01'], [b''], [], kind='argument')
+    run.conv(cfg_(), [b'\x01', b''], [b'\x02', b'\x03'], [], kind='argument')
+    run.conv(cfg_(did=0), [b'\x01'], [b'\x02'], [], kind='argument')                     # DID 0 with the DID flag set
     run.flush()
 
     # ---------------- exhaustive fault scripts for short conversations
@@ -341,7 +368,7 @@ def main():
             while i < 40:
                 if rng.random() < 0.5:
                     s += [('D', 'D')] * rng.randrange(0, 6)
-                s += [F[rng.randrange(1, 5)]] + [('D', 'D')] * 3
+                s += [F[rng.randrange(1, len(F))]] + [('D', 'D')] * rng.choice([2, 2, 3])
                 i = len(s)
         else:
             s = [F[rng.randrange(1, len(F))] if rng.random() < dens else F[0] for _ in range(rng.randrange(0, 50))]
@@ -383,6 +410,11 @@ def main():
     out = mr.run(lines)
     nmis = 0
     for line, im, got in zip(lines, expect, out):
+        # empty / truncated frames are C07's concern: where the model records the internal error of the pinned
+        # code (IndexError / ValueError) a repaired tree may answer with the documented ProtocolError instead
+        if got.startswith('crash ') and im == 'err ProtocolError':
+            ck.count('decode_frame-short-repaired')
+            continue
         if got != im:
             nmis += 1
             if nmis <= 5:
